@@ -1132,6 +1132,25 @@ pub fn wide_array_family(mut emit: impl FnMut(X)) {
     }
 }
 
+/// Arity family: every library function called with 0..3 arguments of every leaf kind (the checker must reject a
+/// wrong argument count, not trip over it).
+pub fn arity_family(mut emit: impl FnMut(X)) {
+    let s = |t: &str| X::Str(t.to_string());
+    let atoms = vec![X::Int(1), s("a"), X::Bool(true), X::Arr(vec![s("a")]), X::Arr(vec![]), X::Tup(vec![]), X::Req("request.target.host")];
+    for f in ["to_string", "to_integer", "strcat", "split", "cidr_match"] {
+        emit(X::Call(f, vec![]));
+        for a in &atoms {
+            emit(X::Call(f, vec![a.clone()]));
+            for b in &atoms {
+                emit(X::Call(f, vec![a.clone(), b.clone()]));
+                for c in [X::Int(1), s("a")] {
+                    emit(X::Call(f, vec![a.clone(), b.clone(), c.clone()]));
+                }
+            }
+        }
+    }
+}
+
 /// Scoping family: aggregates (tuples, arrays) whose members mention let-bound names, used after the name has
 /// been re-bound, after the aggregate has left the scope it was written in, or through another binding.
 pub fn scoping_family(mut emit: impl FnMut(X)) {
@@ -1279,6 +1298,12 @@ fn check() {
         samples.push(show(&d3[d3.len() / 2]));
     }
 
+    // library functions with every argument count
+    let mut af: Vec<X> = vec![];
+    arity_family(|x| af.push(x));
+    par_for(af.len(), |i| {
+        runner.run(&af[i]);
+    });
     // wide arrays (exhaustive over its grammar)
     let mut wf: Vec<X> = vec![];
     wide_array_family(|x| wf.push(x));
@@ -1313,10 +1338,10 @@ fn check() {
         "exhaustive": true,
         "states": runner.outcomes.len(), "transitions": evals + trees, "traces_validated_against_impl": trees,
         "evaluations": trees, "distinct_nontrivial": accepted,
-        "rule": "all trees with one operator node over the leaf set (depth 1, exhaustive); all trees with one operator node over leaves + one representative depth-1 tree per (static type, outcome vector) class (depth 2); thorough adds a depth-3 slice; wide arrays: all 3-member array literals over 12 atoms, indexed once / twice / by a request-dependent index and used in comparisons, membership and strcat; scoping family: 4 literals x 10 aggregate shapes mentioning a let-bound name x 16 uses x {plain, aggregate leaves the name's scope, sibling binding, name re-bound to each of 4 literals (nested / same let)}. non-trivial = accepted by the real checker (then evaluated under up to 6 request environments). states = distinct (static type, per-environment outcome) vectors",
+        "rule": "all trees with one operator node over the leaf set (depth 1, exhaustive); all trees with one operator node over leaves + one representative depth-1 tree per (static type, outcome vector) class (depth 2); thorough adds a depth-3 slice; every library function with 0-3 arguments over 7 atoms; wide arrays: all 3-member array literals over 12 atoms, indexed once / twice / by a request-dependent index and used in comparisons, membership and strcat; scoping family: 4 literals x 10 aggregate shapes mentioning a let-bound name x 16 uses x {plain, aggregate leaves the name's scope, sibling binding, name re-bound to each of 4 literals (nested / same let)}. non-trivial = accepted by the real checker (then evaluated under up to 6 request environments). states = distinct (static type, per-environment outcome) vectors",
         "trees": trees, "accepted_by_checker": accepted, "rejected_by_checker": runner.rejected.load(Ordering::Relaxed),
         "evaluations_run": evals, "compared_with_reference_value": runner.ref_compared.load(Ordering::Relaxed),
-        "leaves": leaves.len(), "depth1": d1.len(), "depth2_atoms": atoms2.len(), "depth2": d2.len(), "depth3": d3n, "wide_arrays": wf.len(), "wide_arrays_accepted": wf_accepted, "scoping_family": sf.len(), "scoping_family_accepted": sf_accepted,
+        "leaves": leaves.len(), "depth1": d1.len(), "depth2_atoms": atoms2.len(), "depth2": d2.len(), "depth3": d3n, "arity_family": af.len(), "wide_arrays": wf.len(), "wide_arrays_accepted": wf_accepted, "scoping_family": sf.len(), "scoping_family_accepted": sf_accepted,
         "environments": envs.iter().map(|e| e.name).collect::<Vec<_>>(),
         "samples": samples,
     });
